@@ -640,13 +640,22 @@ fn internal_descriptors(ctx: &Ctx) -> u64 {
         ("exec 3<e 4<e 5<e 6<e 7<e 8<e 9<e", &[0, 1, 2, 3, 4, 5, 6, 7, 8, 9]),
         ("exec 3<e 5<e 9>>w", &[0, 1, 2, 3, 5, 9]),
     ];
-    // how the main script itself is read: -c string, script file operand, standard input
-    let mains = ["-c", "file", "stdin"];
+    // how the main script itself is read: -c string, script file operand, standard input;
+    // and (for -c) under every descriptor limit 5..14, so that each allocation of an internal
+    // descriptor fails at some limit: then nothing may be left open either
+    let mut variants: Vec<(&str, Option<u32>)> = vec![("-c", None), ("file", None), ("stdin", None)];
+    for n in 5..=14u32 {
+        variants.push(("-c", Some(n)));
+    }
     let mut runs = 0;
     for (iname, itext) in inner {
         for (prelude, low) in preludes {
-            for main in mains {
-                let text = format!("cd /tmp/w\n{prelude}\nfds before\n{}\nfds after\n", itext.replace("\\n", "\n"));
+            for &(main, limit) in &variants {
+                if limit.is_some() && prelude.contains("4<e") {
+                    continue; // with 3..9 taken a limit below 11 leaves nothing to allocate at all
+                }
+                let lim = limit.map(|n| format!("ulimit -n {n}\n")).unwrap_or_default();
+                let text = format!("cd /tmp/w\ntrap 'fds exit' EXIT\n{prelude}\n{lim}fds before\n{}\nfds after\n", itext.replace("\\n", "\n"));
                 let mut s = match main {
                     "-c" => Setup::script(&text),
                     "file" => {
@@ -670,7 +679,7 @@ fn internal_descriptors(ctx: &Ctx) -> u64 {
                 s.cwd = Some("/".into());
                 let r = run_once(&s, &Default::default());
                 runs += 1;
-                let case = || json!({"part": "internal", "scenario": iname, "script": text, "shell_reads_script_from": main});
+                let case = || json!({"part": "internal", "scenario": iname, "script": text, "shell_reads_script_from": main, "descriptor_limit": limit});
                 if let Some(p) = &r.panic {
                     ctx.violation("c09:panic", &format!("panic: {p}"), case());
                     continue;
@@ -699,8 +708,20 @@ fn internal_descriptors(ctx: &Ctx) -> u64 {
                         break;
                     }
                 }
+                // whatever failed on the way, the table at exit is the table before the scenario
+                let snap = |tag: &str| r.trace.iter().find_map(|e| e.text.strip_prefix(&format!("fds {tag} ")).map(strip_offsets));
+                if let (Some(b), Some(x)) = (snap("before"), snap("exit")) {
+                    let norm = |t: &str| -> Vec<String> { t.split_whitespace().map(|s| s.to_string()).collect() };
+                    if norm(&b) != norm(&x) && !itext.starts_with("trap ") {
+                        ctx.violation(
+                            "c09:internal-fd-left-open",
+                            &format!("descriptor table at exit differs from the table before the scenario: {x} vs {b}; stderr {:?}", r.stderr),
+                            case(),
+                        );
+                    }
+                }
                 // (stdin feed: fd 0 is the script itself; a probe count of 0 means the scenario did not run)
-                if probes < 3 {
+                if limit.is_none() && probes < 3 {
                     ctx.violation("c09:internal-scenario-did-not-run", &format!("only {probes} probes ran; stderr {:?}", r.stderr), case());
                 }
             }
@@ -788,7 +809,7 @@ pub fn run(tier: Tier) -> i32 {
         "internal_descriptor_scenarios": internal_runs,
         "evaluations": evals.load(Relaxed) + internal_runs,
         "distinct_nontrivial": nontrivial.lock().unwrap().len(),
-        "rule": "every redirection list of length <= 2 (thorough: + a length-3 slice) over the operator x target-fd x operand alphabet, on each of 11 command kinds, with noclobber on/off where it matters; fault cases repeat lists under `ulimit -n N` for every N in 5..=14 so that each descriptor allocation (save-dup to >=10, open, here-document temp file, dup2) fails at some N. Non-trivial = a redirection fails, or a descriptor limit is in force, or two redirections hit the same descriptor; distinct by script text. Plus 12 scenarios in which the shell holds descriptors of its own (dot scripts, nested dot, saved copies for redirected groups/functions/built-ins, substitutions, here-documents, pipelines, eval, traps, async lists) x 3 user descriptor layouts (none, 3..9 all taken, 3 5 9) x 3 ways of reading the main script (-c, file operand, standard input): at every probe every descriptor >= 10 is close-on-exec and nothing the script did not open is below 10.",
+        "rule": "every redirection list of length <= 2 (thorough: + a length-3 slice) over the operator x target-fd x operand alphabet, on each of 11 command kinds, with noclobber on/off where it matters; fault cases repeat lists under `ulimit -n N` for every N in 5..=14 so that each descriptor allocation (save-dup to >=10, open, here-document temp file, dup2) fails at some N. Non-trivial = a redirection fails, or a descriptor limit is in force, or two redirections hit the same descriptor; distinct by script text. Plus 12 scenarios in which the shell holds descriptors of its own (dot scripts, nested dot, saved copies for redirected groups/functions/built-ins, substitutions, here-documents, pipelines, eval, traps, async lists) x 3 user descriptor layouts (none, 3..9 all taken, 3 5 9) x 3 ways of reading the main script (-c, file operand, standard input) and, for -c, under every descriptor limit 5..14 (table at exit = table before the scenario): at every probe every descriptor >= 10 is close-on-exec and nothing the script did not open is below 10.",
         "samples": samples.take(),
         "plain_cases": n_plain,
         "fault_cases": cases.len() - n_plain,
